@@ -99,24 +99,38 @@ def sampler_history_checked(rn: sc.Runner, steps):
         mask = None
         if decision == "partial" and rn.partial_revert_allowed(0) is None:
             decision = "reject"
-        if decision == "reject":
-            rn.op_revert(0)
-        elif decision == "partial":
+        if decision == "partial":
             mask = [rng.random() < 0.5 for _ in range(sh.nind)]
-            rn.op_revert(0, mask)
+        # the decision may be taken on a copy made while the proposal is pending (clone keeping the fork): the copy must
+        # reject / accept exactly like the original, which is decided afterwards as well
+        sids = [0]
+        if rng.random() < 0.3:
+            rn.op_clone(0, 1, rng.random() < 0.3, True)
+            if 1 in rn.states:
+                sids = [1, 0]
+                counts["decision-on-clone"] = counts.get("decision-on-clone", 0) + 1
         counts[decision] = counts.get(decision, 0) + 1
-        after = rn.indep_of(0)
-        want = dict(before)
-        if decision == "accept":
-            want[n] = prop
-        elif decision == "partial":
-            want[n] = None if before[n] is None else [before[n][r] if mask[r] else prop[r] for r in range(sh.nind)]
-        if after != want:
-            bad = [k for k in want if after.get(k) != want[k]]
-            rn.fails.append(f"after a {decision} decision on '{n}' the independent values {bad} are not "
-                            f"{'what they were before the proposal' if decision == 'reject' else 'old-on-rejected / proposed-on-accepted'}")
-        if rn.states[0]._last_fork is not None and decision != "accept":
-            rn.fails.append("a fork is still present after the revert")
+        for sid in sids:
+            where = "" if sid == 0 else " (decided on a clone made with keep_last_fork=True)"
+            if decision == "reject":
+                rn.op_revert(sid)
+            elif decision == "partial":
+                rn.op_revert(sid, mask)
+            after = rn.indep_of(sid)
+            want = dict(before)
+            if decision == "accept":
+                want[n] = prop
+            elif decision == "partial":
+                want[n] = None if before[n] is None else [before[n][r] if mask[r] else prop[r] for r in range(sh.nind)]
+            if after != want:
+                bad = [k for k in want if after.get(k) != want[k]]
+                rn.fails.append(f"after a {decision} decision on '{n}'{where} the independent values {bad} are not "
+                                f"{'what they were before the proposal' if decision == 'reject' else 'old-on-rejected / proposed-on-accepted'}")
+            if rn.states[sid]._last_fork is not None and decision != "accept":
+                rn.fails.append(f"a fork is still present after the revert{where}")
+            if sid != 0:
+                for k in rng.sample(sh.names, min(len(sh.names), rng.randrange(1, 4))):
+                    rn.op_get(sid, k)
         for k in rng.sample(sh.names, min(len(sh.names), rng.randrange(1, 6))):
             rn.op_get(0, k)
     for k in sh.names:
